@@ -250,6 +250,35 @@ let () =
                          failc "SPEC" (nm "slab_area") (Printf.sprintf "impl=%s slab area of the point set=%s %s" (qs x) (qs tot) gr.dump)
                      | None -> ())
                   end;
+                  (* the centre of mass of the point set itself (Props/C14_moments.v): first moments of the
+                     trapezoids of the slab decomposition whose witness is a member (inG) over their area.
+                     The hypotheses of theorem slab_hypotheses_imply_centroid are evaluated (slab_hypotheses
+                     above, rings_nonzero here) and the exact quotient is compared with the implementation's
+                     Centroid whenever the geometry's centroid is the areal one. *)
+                  if tg = "base" && int_of_nat (hdim g) = 2
+                     && List.length (List.concat_map (fun rs -> List.concat rs) lats) <= 60 then begin
+                    count "oracle_centroid_moments";
+                    List.iter (fun y -> if not (rings_nonzero y) then failc "CORR" "rings_nonzero" gr.dump) ps;
+                    let judge what = function
+                      | None -> failc "CORR" "moments_zero_area" (what ^ " " ^ gr.dump)
+                      | Some ex ->
+                        (match o.cxy with
+                         | Some c ->
+                           if not (xy_close c ex ctol) then
+                             failc "SPEC" (nm "centroid_moments")
+                               (Printf.sprintf "impl=(%s,%s) centre of mass of the point set (%s)=(%s,%s) %s"
+                                  (qs (fst c)) (qs (snd c)) what (qs (fst ex)) (qs (snd ex)) gr.dump)
+                         | None -> if not o.cnan then failc "SPEC" (nm "centroid_moments") (o.c ^ " " ^ gr.dump)) in
+                    judge "slab cells per polygon" (Moments_check.point_set_centroid ps);
+                    (* multipolygons also as ONE point set: all members in a common arrangement, pointwise
+                       disjoint at the witnesses (theorem mpoly_hypotheses_imply_centroid) *)
+                    (match g with
+                     | GMPoly (_, mps) when List.length mps >= 2 ->
+                       count "oracle_centroid_moments_union";
+                       if not (mpoly_hypotheses mps) then failc "CORR" "mpoly_hypotheses" gr.dump;
+                       judge "union of the members in one arrangement" (Moments_check.union_centroid mps)
+                     | _ -> ())
+                  end;
                   (* unit cells of rectilinear polygons: area and centre of mass *)
                   let top_areal = (match g with GPoly _ | GMPoly _ -> true | _ -> false) in
                   if top_areal && List.for_all (fun rs -> List.for_all rectilinear rs) lats then begin
